@@ -85,6 +85,12 @@ func (m *dlMock) view(off int64, limit int) []byte {
 		if cut < size && cut > off && cut < end {
 			out = out[:cut-off]
 		}
+	case "extend_full":
+		// the answer that crosses the end of the file is padded up to the requested length, so it does not look like a
+		// final short answer; whole hash windows are served honestly (a selective adversary)
+		if end == size && off+int64(limit) > size && limit < dlWindow {
+			out = append(out, bytes.Repeat([]byte{0xEE}, int(off+int64(limit)-size))...)
+		}
 	case "extend":
 		if end == size && off+int64(limit) > size {
 			out = append(out, bytes.Repeat([]byte{0xEE}, minInt(32, int(off+int64(limit)-size)))...)
